@@ -34,4 +34,41 @@ def cases(ctx):
 
 
 PARTS = [Part("engine", prop, strategy=cases, quick=6400, thorough=160000, shrink_budget=40)]
+# --- real schedulers sharing a token; one of them is killed while its jobs hold tokens ----------
+
+
+def real_oracle(sc, res, run, done_ok, begins):
+    from vlib import real
+
+    viol = []
+    if res["inconclusive"] or res["stuck"] or not sc["total"]:
+        return viol
+    view = real.fresh_token_view(run.ws, sc["total"])
+    if view is not None and view[0] != sc["total"]:
+        viol.append(("C09", "token-not-restored", f"after every job process ended a fresh scheduler sees {view[0]} of {sc['total']} available (files {view[1]}); kills {res['kills']}"))
+    # schedulers that were not killed must end
+    for k, (p, status) in enumerate(zip(sc["procs"], res["status"])):
+        if status is None:
+            viol.append(("C09", "surviving-scheduler-never-ends", f"scheduler {p['name']} was not killed but never ended (kills {res['kills']})"))
+    return viol
+
+
+def prop_real(ctx, sc):
+    from vlib import real
+
+    res, labels, done_ok, begins, run = real.run_scenario(ctx, sc, ID, real_oracle)
+    try:
+        ctx.record(bool(res["kills"]) and bool(sc["total"]), ["real"] + labels, sample={"scenario": sc, "log": res["log"], "kills": res["kills"], "status": res["status"], "time": res["time"]})
+    finally:
+        run.cleanup()
+
+
+def real_cases(ctx):
+    from vlib import real
+
+    return real.scenarios(max_procs=3, min_procs=1, max_jobs=5, token_pct=100, fail_pct=10, kill_pct=80, restart=False, durations=(0.1, 0.3, 0.6))
+
+
+PARTS.append(Part("real", prop_real, strategy=real_cases, quick=16, thorough=240, shrink_budget=5))
+MIN_CLASSES["quick"]["real"] = 12
 TIMEOUT = {"quick": 900, "thorough": 5400}
